@@ -64,10 +64,11 @@ def find_item(ix, kind, path, rel):
 
 
 class Edit:
-    __slots__ = ("pos", "end", "text", "rule", "tline")
+    __slots__ = ("pos", "end", "text", "rule", "tline", "sec", "optional")
 
     def __init__(self, pos, end, text, rule, tline):
         self.pos, self.end, self.text, self.rule, self.tline = pos, end, text, rule, tline
+        self.sec, self.optional = -1, False
 
 
 def line_of(data, off):
@@ -115,6 +116,142 @@ def find_anchor(item_bytes, anchor, nth, what):
     return hits[nth]
 
 
+def _apply_section(sec, head, it, data, s0, e0, what, edits, drop, tags_box, ret_box):
+    body = "\n".join(sec["text"])
+    tl = sec["tline"]
+    w = head.split()
+    kw = w[0].rstrip(":")
+    if kw == "tags":
+        tags_box[0] = [x.rstrip(":") for x in w[1:]]
+    elif kw == "ret":
+        ret_name = w[1]
+        ret_box[0] = ret_name
+        if it["ret"] is None:
+            raise GenError(f"{what}: 'ret' given but the function has no return type")
+        a, b = it["ret"]
+        edits.append(Edit(a, a, f"({ret_name}: ", "ins:ret", tl))
+        edits.append(Edit(b, b, ")", "ins:ret", tl))
+    elif kw == "spec":
+        edits.append(Edit(it["body"][0], it["body"][0], "\n" + body + "\n", "ins:spec", tl))
+    elif kw == "loop":
+        k = int(w[1].rstrip(":"))
+        if k >= len(it["loops"]):
+            raise GenError(f"{what}: loop {k} not found (function has {len(it['loops'])} loops)")
+        lp = it["loops"][k]
+        if len(w) >= 4 and w[2] == "it":
+            if lp["kind"] != "for":
+                raise GenError(f"{what}: loop {k} is not a for loop")
+            edits.append(Edit(lp["expr"][0], lp["expr"][0], w[3].rstrip(":") + ": ", "ins:ghost-iter", tl))
+        if body.strip():
+            edits.append(Edit(lp["body_start"], lp["body_start"], "\n" + body + "\n", "ins:loop", tl))
+    elif kw in ("before", "after"):
+        m = ANCH.search(head)
+        if not m:
+            raise GenError(f"template line {tl}: bad anchor syntax")
+        nth = int(m.group(2)) if m.group(2) else None
+        off = s0 + find_anchor(data[s0:e0], m.group(1), nth, what)
+        if kw == "after":
+            off += len(m.group(1).encode())
+        edits.append(Edit(off, off, ("\n" if kw == "before" else " ") + body + "\n", "ins:" + kw, tl))
+    elif kw == "closure":
+        k = int(w[1].rstrip(":"))
+        if k >= len(it["closures"]):
+            raise GenError(f"{what}: closure {k} not found (function has {len(it['closures'])})")
+        c = it["closures"][k]
+        ms = ANCH.findall(head)
+        types = [x[0] for x in ms]
+        rest = head
+        retn = None
+        if " ret " in head:
+            # last backtick group is the return binder
+            retn = types[-1]
+            types = types[:-1]
+        untyped = [p for p in c["inputs"] if not p["typed"]]
+        if types and len(types) != len(untyped):
+            raise GenError(f"{what}: closure {k} has {len(untyped)} untyped params, template gives {len(types)} types")
+        for p, t in zip(untyped, types):
+            edits.append(Edit(p["span"][1], p["span"][1], ": " + t, "ins:closure-type", tl))
+        pre = ""
+        if retn:
+            if c["has_ret"]:
+                raise GenError(f"{what}: closure {k} already has a return type")
+            pre = f" -> ({retn})"
+        edits.append(Edit(c["or2"][1], c["or2"][1], pre + "\n" + body + "\n{", "ins:closure-spec", tl))
+        edits.append(Edit(c["body"][1], c["body"][1], " }", "ins:closure-spec", tl))
+    elif kw == "rewrite":
+        ms = ANCH.findall(head)
+        if len(ms) != 2:
+            raise GenError(f"template line {tl}: rewrite needs `from` => `to`")
+        (frm, n1), (to, _) = ms
+        nth = int(n1) if n1 else None
+        off = s0 + find_anchor(data[s0:e0], frm, nth, what)
+        edits.append(Edit(off, off + len(frm.encode()), to, "X4:rewrite", tl))
+    elif kw == "hoist":
+        k = int(w[1].rstrip(":"))
+        ms = [m_ for m_ in it["macros"] if m_["name"] in ("assert", "debug_assert")]
+        if k >= len(ms):
+            raise GenError(f"{what}: hoist {k}: only {len(ms)} assert!/debug_assert! in the function")
+        a, b = ms[k]["span"]
+        txt = data[a:b].decode()
+        name = ms[k]["name"]
+        op = txt.index("(")
+        if not txt.endswith(")"):
+            raise GenError(f"{what}: hoist {k}: unexpected macro shape")
+        edits.append(Edit(a, a + op + 1, f"let __h{k} = (", "X5b:hoist", tl))
+        # after the `;` that follows the macro call
+        j = b
+        while data[j:j + 1] in (b" ", b"\n", b"\t"):
+            j += 1
+        if data[j:j + 1] != b";":
+            raise GenError(f"{what}: hoist {k}: macro call is not a statement")
+        edits.append(Edit(j + 1, j + 1, f" {name}!(__h{k});", "X5b:hoist", tl))
+    elif kw == "inline":
+        # X7: `recv.<method>(|p| body)` on an Option/bool rewritten as the match/if std defines it to be
+        meth = w[1]
+        k = int(w[2].rstrip(":")) if len(w) > 2 else 0
+        cands = [c for c in it.get("combinators", []) if c["method"] == meth]
+        if k >= len(cands):
+            raise GenError(f"{what}: inline {meth} {k}: only {len(cands)} such calls with a closure argument")
+        c = cands[k]
+        if c["escapes"]:
+            raise GenError(f"{what}: inline {meth} {k}: closure body contains `?`/`return`, cannot be inlined")
+        pats = [data[p_["pat"][0]:p_["pat"][1]].decode() for p_ in c["params"]]
+        r0, r1 = c["recv"]
+        b0, b1 = c["body"]
+        pe = c["paren_end"]
+        x = f"__x{k}"
+        if meth == "map" and len(pats) == 1:
+            mid, tail = f" {{ Some({pats[0]}) => Some(", "), None => None }"
+        elif meth == "and_then" and len(pats) == 1:
+            mid, tail = f" {{ Some({pats[0]}) => (", "), None => None }"
+        elif meth == "or_else" and len(pats) == 0:
+            mid, tail = f" {{ Some({x}) => Some({x}), None => (", ") }"
+        elif meth == "unwrap_or_else" and len(pats) == 0:
+            mid, tail = f" {{ Some({x}) => {x}, None => (", ") }"
+        elif meth == "map_err" and len(pats) == 1:
+            mid, tail = f" {{ Ok({x}) => Ok({x}), Err({pats[0]}) => Err(", ") }"
+        elif meth == "filter" and len(pats) == 1:
+            mid, tail = f" {{ Some({x}) => if {{ let {pats[0]} = &{x}; ", f" }} {{ Some({x}) }} else {{ None }}, None => None }}"
+        elif meth == "then" and len(pats) == 0:
+            mid, tail = None, None
+        else:
+            raise GenError(f"{what}: inline {meth}: unsupported combinator shape")
+        if meth == "then":
+            edits.append(Edit(r0, r0, "if ", "X7:inline", tl))
+            edits.append(Edit(r1, b0, " { Some(", "X7:inline", tl))
+            edits.append(Edit(b1, pe, ") } else { None }", "X7:inline", tl))
+        else:
+            edits.append(Edit(r0, r0, "(match ", "X7:inline", tl))
+            edits.append(Edit(r1, b0, mid, "X7:inline", tl))
+            edits.append(Edit(b1, pe, tail + ")", "X7:inline", tl))
+    elif kw == "dropattr":
+        drop.update(w[1:])
+    elif kw == "keepattr":
+        drop.difference_update(w[1:])
+    else:
+        raise GenError(f"template line {tl}: unknown section '{head}'")
+
+
 def expand_fn(repo, d, log):
     rel, path = d["file"], d["path"]
     ix = index(repo, rel)
@@ -127,140 +264,26 @@ def expand_fn(repo, d, log):
     stub = "stub" in d["flags"]
     drop = set(DEFAULT_DROP_ATTRS)
     ret_name = None
-    for sec in d["sections"]:
+    skipped = []
+    tags_box, ret_box = [[]], [None]
+    for sec_no, sec in enumerate(d["sections"]):
         head = sec["head"]
-        body = "\n".join(sec["text"])
-        tl = sec["tline"]
-        w = head.split()
-        kw = w[0].rstrip(":")
-        if kw == "tags":
-            tags = [x.rstrip(":") for x in w[1:]]
-        elif kw == "ret":
-            ret_name = w[1]
-            if it["ret"] is None:
-                raise GenError(f"{what}: 'ret' given but the function has no return type")
-            a, b = it["ret"]
-            edits.append(Edit(a, a, f"({ret_name}: ", "ins:ret", tl))
-            edits.append(Edit(b, b, ")", "ins:ret", tl))
-        elif kw == "spec":
-            edits.append(Edit(it["body"][0], it["body"][0], "\n" + body + "\n", "ins:spec", tl))
-        elif kw == "loop":
-            k = int(w[1].rstrip(":"))
-            if k >= len(it["loops"]):
-                raise GenError(f"{what}: loop {k} not found (function has {len(it['loops'])} loops)")
-            lp = it["loops"][k]
-            if len(w) >= 4 and w[2] == "it":
-                if lp["kind"] != "for":
-                    raise GenError(f"{what}: loop {k} is not a for loop")
-                edits.append(Edit(lp["expr"][0], lp["expr"][0], w[3].rstrip(":") + ": ", "ins:ghost-iter", tl))
-            if body.strip():
-                edits.append(Edit(lp["body_start"], lp["body_start"], "\n" + body + "\n", "ins:loop", tl))
-        elif kw in ("before", "after"):
-            m = ANCH.search(head)
-            if not m:
-                raise GenError(f"template line {tl}: bad anchor syntax")
-            nth = int(m.group(2)) if m.group(2) else None
-            off = s0 + find_anchor(data[s0:e0], m.group(1), nth, what)
-            if kw == "after":
-                off += len(m.group(1).encode())
-            edits.append(Edit(off, off, ("\n" if kw == "before" else " ") + body + "\n", "ins:" + kw, tl))
-        elif kw == "closure":
-            k = int(w[1].rstrip(":"))
-            if k >= len(it["closures"]):
-                raise GenError(f"{what}: closure {k} not found (function has {len(it['closures'])})")
-            c = it["closures"][k]
-            ms = ANCH.findall(head)
-            types = [x[0] for x in ms]
-            rest = head
-            retn = None
-            if " ret " in head:
-                # last backtick group is the return binder
-                retn = types[-1]
-                types = types[:-1]
-            untyped = [p for p in c["inputs"] if not p["typed"]]
-            if types and len(types) != len(untyped):
-                raise GenError(f"{what}: closure {k} has {len(untyped)} untyped params, template gives {len(types)} types")
-            for p, t in zip(untyped, types):
-                edits.append(Edit(p["span"][1], p["span"][1], ": " + t, "ins:closure-type", tl))
-            pre = ""
-            if retn:
-                if c["has_ret"]:
-                    raise GenError(f"{what}: closure {k} already has a return type")
-                pre = f" -> ({retn})"
-            edits.append(Edit(c["or2"][1], c["or2"][1], pre + "\n" + body + "\n{", "ins:closure-spec", tl))
-            edits.append(Edit(c["body"][1], c["body"][1], " }", "ins:closure-spec", tl))
-        elif kw == "rewrite":
-            ms = ANCH.findall(head)
-            if len(ms) != 2:
-                raise GenError(f"template line {tl}: rewrite needs `from` => `to`")
-            (frm, n1), (to, _) = ms
-            nth = int(n1) if n1 else None
-            off = s0 + find_anchor(data[s0:e0], frm, nth, what)
-            edits.append(Edit(off, off + len(frm.encode()), to, "X4:rewrite", tl))
-        elif kw == "hoist":
-            k = int(w[1].rstrip(":"))
-            ms = [m_ for m_ in it["macros"] if m_["name"] in ("assert", "debug_assert")]
-            if k >= len(ms):
-                raise GenError(f"{what}: hoist {k}: only {len(ms)} assert!/debug_assert! in the function")
-            a, b = ms[k]["span"]
-            txt = data[a:b].decode()
-            name = ms[k]["name"]
-            op = txt.index("(")
-            if not txt.endswith(")"):
-                raise GenError(f"{what}: hoist {k}: unexpected macro shape")
-            edits.append(Edit(a, a + op + 1, f"let __h{k} = (", "X5b:hoist", tl))
-            # after the `;` that follows the macro call
-            j = b
-            while data[j:j + 1] in (b" ", b"\n", b"\t"):
-                j += 1
-            if data[j:j + 1] != b";":
-                raise GenError(f"{what}: hoist {k}: macro call is not a statement")
-            edits.append(Edit(j + 1, j + 1, f" {name}!(__h{k});", "X5b:hoist", tl))
-        elif kw == "inline":
-            # X7: `recv.<method>(|p| body)` on an Option/bool rewritten as the match/if std defines it to be
-            meth = w[1]
-            k = int(w[2].rstrip(":")) if len(w) > 2 else 0
-            cands = [c for c in it.get("combinators", []) if c["method"] == meth]
-            if k >= len(cands):
-                raise GenError(f"{what}: inline {meth} {k}: only {len(cands)} such calls with a closure argument")
-            c = cands[k]
-            if c["escapes"]:
-                raise GenError(f"{what}: inline {meth} {k}: closure body contains `?`/`return`, cannot be inlined")
-            pats = [data[p_["pat"][0]:p_["pat"][1]].decode() for p_ in c["params"]]
-            r0, r1 = c["recv"]
-            b0, b1 = c["body"]
-            pe = c["paren_end"]
-            x = f"__x{k}"
-            if meth == "map" and len(pats) == 1:
-                mid, tail = f" {{ Some({pats[0]}) => Some(", "), None => None }"
-            elif meth == "and_then" and len(pats) == 1:
-                mid, tail = f" {{ Some({pats[0]}) => (", "), None => None }"
-            elif meth == "or_else" and len(pats) == 0:
-                mid, tail = f" {{ Some({x}) => Some({x}), None => (", ") }"
-            elif meth == "unwrap_or_else" and len(pats) == 0:
-                mid, tail = f" {{ Some({x}) => {x}, None => (", ") }"
-            elif meth == "map_err" and len(pats) == 1:
-                mid, tail = f" {{ Ok({x}) => Ok({x}), Err({pats[0]}) => Err(", ") }"
-            elif meth == "filter" and len(pats) == 1:
-                mid, tail = f" {{ Some({x}) => if {{ let {pats[0]} = &{x}; ", f" }} {{ Some({x}) }} else {{ None }}, None => None }}"
-            elif meth == "then" and len(pats) == 0:
-                mid, tail = None, None
-            else:
-                raise GenError(f"{what}: inline {meth}: unsupported combinator shape")
-            if meth == "then":
-                edits.append(Edit(r0, r0, "if ", "X7:inline", tl))
-                edits.append(Edit(r1, b0, " { Some(", "X7:inline", tl))
-                edits.append(Edit(b1, pe, ") } else { None }", "X7:inline", tl))
-            else:
-                edits.append(Edit(r0, r0, "(match ", "X7:inline", tl))
-                edits.append(Edit(r1, b0, mid, "X7:inline", tl))
-                edits.append(Edit(b1, pe, tail + ")", "X7:inline", tl))
-        elif kw == "dropattr":
-            drop.update(w[1:])
-        elif kw == "keepattr":
-            drop.difference_update(w[1:])
-        else:
-            raise GenError(f"template line {tl}: unknown section '{head}'")
+        optional = head.startswith("?")
+        if optional:
+            head = head[1:]
+        n_before = len(edits)
+        try:
+            _apply_section(sec, head, it, data, s0, e0, what, edits, drop, tags_box, ret_box)
+        except GenError as ex:
+            if not optional:
+                raise
+            del edits[n_before:]
+            skipped.append({"section": head, "reason": str(ex)})
+        for e_ in edits[n_before:]:
+            e_.sec = sec_no
+            e_.optional = optional
+    tags = tags_box[0]
+    ret_name = ret_box[0]
     # attributes (X1)
     for a in it["attrs"]:
         if a["name"] in drop:
@@ -270,10 +293,21 @@ def expand_fn(repo, d, log):
         edits.append(Edit(it["after_attrs"], it["after_attrs"], "#[verifier::external_body] ", "X6:stub", d["tline"]))
         edits.append(Edit(it["body"][0], it["body"][1], "{ unimplemented!() }", "X6:stub", d["tline"]))
     edits.sort(key=lambda e: (e.pos, e.end))
-    # overlapping check
-    for a, b in zip(edits, edits[1:]):
-        if b.pos < a.end:
+    # overlapping check; an optional section that collides with another edit is dropped as a whole
+    while True:
+        clash = None
+        for a, b in zip(edits, edits[1:]):
+            if b.pos < a.end:
+                clash = (a, b)
+                break
+        if clash is None:
+            break
+        a, b = clash
+        victim = a if a.optional else (b if b.optional else None)
+        if victim is None:
             raise GenError(f"{what}: overlapping edits at byte {b.pos}")
+        skipped.append({"section": d["sections"][victim.sec]["head"], "reason": "overlaps another edit"})
+        edits = [e for e in edits if e.sec != victim.sec]
     # a stub drops edits inside the body
     if stub:
         bs, be = it["body"]
@@ -297,7 +331,7 @@ def expand_fn(repo, d, log):
             "line": line_of(data, it["sig"][0]), "end_line": line_of(data, e0),
             "body_sha": hashlib.sha256(body_bytes).hexdigest()[:16],
             "loops": len(it["loops"]), "n_edits": len(edits), "src_span": [s0, e0],
-            "edits": [(e.pos, e.end, e.text, e.rule) for e in edits]}
+            "edits": [(e.pos, e.end, e.text, e.rule) for e in edits], "skipped_optional": skipped}
     return segs, info
 
 
